@@ -79,7 +79,7 @@ CHECKS = {
          "DESIGN.md 5 C07"),
  "C14": ("exploration", "ThreadSanitizer happens-before race check on every explored schedule of the real code under the controlled scheduler (HB-race mode)",
          "All 27 UDPSession and 9 Listener methods, each called twice on its own thread on dialled and accepted session against live traffic and a second client, every cipher (none, AES-CFB, AEAD, sm4, twofish, blowfish, 3des, cast5, tea, xtea, salsa20, xor, none-with-CRC) x FEC {off,on} x Close variants, Read also with buffers smaller than a chunk; "
-         "the scheduler's hand-offs are hidden from TSan and the shims announce the program's own HB edges, so a race between any two calls is reported on any schedule where both accesses occur; default schedule + single deviations. The entropy generators (state written by assembly, invisible to TSan) are decided by interleaving exploration with scheduling points after every Unlock. Small dedicated units complete deviation bound 1 with scheduling points after every Unlock: readers with small buffers, and SendOOB against Close with the peer drawing from the same pool (pool ownership tracking as a second race oracle).",
+         "the scheduler's hand-offs are hidden from TSan and the shims announce the program's own HB edges, so a race between any two calls is reported on any schedule where both accesses occur; default schedules + single deviations (quick tier: the first 600 of each unit, a fixed amount of work independent of the machine's speed; thorough tier: as many as the time budget allows, then bound 2). The entropy generators (state written by assembly, invisible to TSan) are decided by interleaving exploration with scheduling points after every Unlock. Small dedicated units complete deviation bound 1 with scheduling points after every Unlock: readers with small buffers, and SendOOB against Close with the peer drawing from the same pool (pool ownership tracking as a second race oracle).",
          "DESIGN.md 5 C14"),
  "C16": ("fault_enumeration", "exhaustive enumeration of sender/receiver ratio pairs x starting residues; fate vectors for stability",
          "Every (d,p) x (d',p') with d,d'<=4, p,p'<=3 and boundary pairs up to d+p=255, from every starting residue and three bases: the real decoder fed the real encoder's uninterrupted output must adopt the ratio within 258+2(d+p) packets "
